@@ -64,10 +64,13 @@ CALLS = {"n": 0}
 _ENV = {}
 
 
-def probe_env():
-    """environment with the probe registry (built once per process)"""
-    if "env" in _ENV:
-        return _ENV["env"]
+def probe_env(style="item-assignment"):
+    """environment with the probe registry (built once per process and style).  style = how the
+    registry got there: names assigned one by one into the environment's dict (what the
+    documentation shows), the attribute rebound to a new dict after construction, or a subclass
+    whose setup_function_extensions() installs a dict of its own"""
+    if ("env", style) in _ENV:
+        return _ENV[("env", style)]
     from jsonpath_rfc9535 import JSONPathEnvironment
     from jsonpath_rfc9535.function_extensions import ExpressionType, FilterFunction
 
@@ -84,10 +87,23 @@ def probe_env():
 
         return Probe()
 
-    env = JSONPathEnvironment()
-    for name, (params, ret) in SIGS.items():
-        env.function_extensions[name] = make(params, ret)
-    _ENV["env"] = env
+    if style == "item-assignment":
+        env = JSONPathEnvironment()
+        for name, (params, ret) in SIGS.items():
+            env.function_extensions[name] = make(params, ret)
+    elif style == "rebound":
+        env = JSONPathEnvironment()
+        env.function_extensions = dict(env.function_extensions,
+                                       **{name: make(params, ret) for name, (params, ret) in SIGS.items()})
+    else:
+        class OwnRegistry(JSONPathEnvironment):
+            def setup_function_extensions(self):
+                std = JSONPathEnvironment().function_extensions
+                self.function_extensions = {name: make(params, ret) for name, (params, ret) in SIGS.items()}
+                self.function_extensions.update(std)
+
+        env = OwnRegistry()
+    _ENV[("env", style)] = env
     return env
 
 
@@ -131,6 +147,7 @@ def shards(tier):
     out = [{"part": "fn", "name": name} for name in sorted(SIGS)]
     out += [{"part": "builtin"}, {"part": "range"}, {"part": "arity"}]
     out += [{"part": "fresh", "name": name} for name in sorted(rt.BUILTINS)]
+    out += [{"part": "registry_styles", "style": st} for st in ("rebound", "own-dict")]
     return out
 
 
@@ -158,6 +175,9 @@ def check_one(text, lo=None, hi=None, how="subclass"):
         # a new plain environment for this one query: it is the first query the environment ever sees
         verdict = rt.classify(text)
         env = impl.jp.JSONPathEnvironment()
+    elif how in ("rebound", "own-dict"):
+        verdict = rt.classify(text, registry=REGISTRY)
+        env = probe_env(how)
     elif lo is None:
         verdict = rt.classify(text, registry=REGISTRY)
         env = probe_env()
@@ -168,7 +188,7 @@ def check_one(text, lo=None, hi=None, how="subclass"):
     outcome = impl.run(env.compile, text)
     v = judge(text, verdict, outcome, CALLS["n"] - before)
     if v is not None:
-        if how == "fresh":
+        if how in ("fresh", "rebound", "own-dict"):
             v["case"]["configured"] = how
         elif lo is not None:
             v["case"]["range"] = [lo, hi]
@@ -218,6 +238,17 @@ def run_shard(desc):
         for args in ([], ["1"], ["@.a"], ["@.*", "1"]):
             for q in positions(f"nosuch({','.join(args)})"):
                 do(q)
+    elif part == "registry_styles":
+        # the same judgement when the registry was installed by rebinding the attribute / by a subclass
+        # that builds a dict of its own: one-parameter probes and the standard functions
+        names = [n for n, (params, _) in sorted(SIGS.items()) if len(params) <= 1] + ["length", "count", "value"]
+        for name in names:
+            params, _ = REGISTRY[name]
+            for args in itertools.product(ARG_SHAPES, repeat=len(params)):
+                for q in positions(f"{name}({', '.join(args)})"):
+                    do(q, how=desc["style"])
+        for q in ("$[?match(@.a, 'x') == true]", "$[?match((@.a), 'x')]", "$[?search(@.a, 1)]", "$[?nosuch(@.a)]"):
+            do(q, how=desc["style"])
     elif part == "fresh":
         # the standard functions again, every query on an environment of its own (whatever an
         # environment prepares lazily on first use must not let the first query through unchecked)
